@@ -1042,7 +1042,7 @@ func OrdBSClear(p *load.Program) *report.RuleResult {
 // the end of a container only when the tokenizer is not in the middle of a
 // value.
 func OrdTokFinish(p *load.Program) *report.RuleResult {
-	r := newResult("ORD-TOKFINISH", "every call of tokenizer.SkipContainerContents (a character-level scan for the enclosing container's terminator that knows nothing about the token the tokenizer is positioned on) is reached only after a tokenizer call that leaves no value unfinished (FinishValue, SetFinished, a Read*/skipValue that consumes the value) with no tokenizer.Next in between — or the scan itself starts with such a call: otherwise the brackets of a half-read child of a different container type end the scan early", 1)
+	r := newResult("ORD-TOKFINISH", "every call of tokenizer.SkipContainerContents (a character-level scan for the enclosing container's terminator that knows nothing about the token the tokenizer is positioned on) is reached only after a tokenizer call that consumes what is left of the current value (FinishValue, a Read*/skipValue; not SetFinished, which only flips the flag for stepping in) with no tokenizer.Next in between — or the scan itself starts with such a call: otherwise the brackets of a half-read child of a different container type end the scan early", 1)
 	tk := p.Type(p.Ion, "tokenizer")
 	if tk == nil {
 		missing(r, "tokenizer", "type not found")
@@ -1079,6 +1079,22 @@ func OrdTokFinish(p *load.Program) *report.RuleResult {
 		}
 		fin[f] = 3
 		res := len(f.Blocks) > 0 && f.Signature.Recv() != nil
+		// a method that only flips the flag (SetFinished, for stepping in) consumes
+		// nothing: the rest of the value is still ahead in the input. A finisher
+		// calls at least one other tokenizer method (which reads).
+		if res {
+			calls := false
+			for _, b := range f.Blocks {
+				for _, in := range b.Instrs {
+					if c, ok := in.(ssa.CallInstruction); ok {
+						if g := load.Unwrap(c.Common().StaticCallee()); g != nil && recvTypeName(g) == "tokenizer" {
+							calls = true
+						}
+					}
+				}
+			}
+			res = calls
+		}
 		if res {
 			ff := ssau.ComputeFacts(f, ssau.StoreKills)
 			recv := ssau.Path(f.Params[0])
@@ -1523,4 +1539,78 @@ func resolveBoolArg(p *load.Program, fn *ssa.Function, v ssa.Value, depth int) [
 		return []resolvedMode{{fn, at, false, false}}
 	}
 	return out
+}
+
+// ---------------------------------------------------------------------------
+// OWN-ENCPURE
+
+// OwnEncPure implements OWN-ENCPURE: marshalling reads the Go value it is
+// given and never writes through it.
+func OwnEncPure(p *load.Program) *report.RuleResult {
+	r := newResult("OWN-ENCPURE", "no function of marshal.go reaches, through static calls inside the module, a mutating method of reflect.Value (Set, SetInt, SetLen, ... ) or reflect.Copy: Marshal and Encoder.Encode do not write through the value they are given, so a nil embedded pointer stays nil, the caller's value is the same before and after, and two goroutines may marshal one value", 10)
+	isMut := func(f *ssa.Function) bool {
+		if f == nil || f.Pkg == nil || f.Pkg.Pkg.Path() != "reflect" {
+			return false
+		}
+		if f.Signature.Recv() != nil && recvTypeName(f) == "Value" && strings.HasPrefix(f.Name(), "Set") {
+			return true
+		}
+		return f.Signature.Recv() == nil && f.Name() == "Copy"
+	}
+	sc := Scope{Name: "marshal.go", Pkgs: []string{"ion"}, Files: []string{"marshal.go"}}
+	memo := map[*ssa.Function]string{}
+	busy := map[*ssa.Function]bool{}
+	var reach func(f *ssa.Function) string
+	reach = func(f *ssa.Function) string {
+		if v, ok := memo[f]; ok {
+			return v
+		}
+		if busy[f] {
+			return ""
+		}
+		busy[f] = true
+		defer delete(busy, f)
+		res := ""
+		for _, b := range f.Blocks {
+			for _, in := range b.Instrs {
+				c, ok := in.(ssa.CallInstruction)
+				if !ok || res != "" {
+					continue
+				}
+				g := load.Unwrap(c.Common().StaticCallee())
+				if g == nil {
+					continue
+				}
+				if isMut(g) {
+					res = sprintf("%s calls reflect.%s at %s", p.FuncName(f), g.Name(), instrPos(p, in))
+				} else if p.InModule(g) && !p.InTest(g) {
+					if via := reach(g); via != "" {
+						res = p.FuncName(f) + " → " + via
+					}
+				}
+			}
+		}
+		// closures defined here run on behalf of this function
+		for _, an := range f.AnonFuncs {
+			if res == "" {
+				if via := reach(an); via != "" {
+					res = via
+				}
+			}
+		}
+		memo[f] = res
+		return res
+	}
+	for _, fn := range sortedFuncs(p) {
+		if !sc.has(p, fn) || len(fn.Blocks) == 0 || fn.Parent() != nil {
+			continue
+		}
+		name := p.FuncName(fn)
+		if via := reach(fn); via == "" {
+			r.OK(name, p.Pos(fn.Pos()), "no write through the marshalled value", "no mutating reflect call is reachable")
+		} else {
+			r.Bad(name, p.Pos(fn.Pos()), "no write through the marshalled value", via+": marshalling allocates or overwrites part of the caller's value (a nil embedded pointer comes back non-nil; concurrent Marshal calls on one value race)")
+		}
+	}
+	return r
 }
